@@ -32,6 +32,8 @@ PROPS = {
                 rule="a run = one short seeded history (updates, merges, k minimal) executed with the library's coin owned by the simulator: for kll and classic quantiles every operation is re-executed from a copied pre-state once per outcome of the draws it requests (complete draw tree) and the exact integer martingale identity is checked at every retained item; for req the whole history is replayed under every coin sequence (<= 14 draws) and the mean rank count must equal the true count exactly; non-trivial = at least one operation that flipped a coin; distinct = distinct plan hash"),
     "C12": dict(level="exploration", units=[("addagg", "c12", 16, 1600, 60000)],
                 rule="a run = 3 frequent_items sketches (int64/int64 weights or string/uint64 weights, lg_max 3..8) fed skewed, uniform and all-distinct weighted streams with zero weights, merged in scheduler order (lvalue/rvalue), copied and restored; exact weight map per sketch; bracket, max-error, total-weight and epsilon clauses for every item and 16 unseen items after every step; result-set guarantees at thresholds around the actual weights; non-trivial = merge/restore/read; distinct = distinct plan hash"),
+    "C13": dict(level="exploration", units=[("agg_tuple", "c13", 16, 6000, 200000)],
+                rule="a run = 3 update tuple sketches of one summary kind (double with sum policy, an ordered list whose policy appends - non-commutative and move-aware -, array of doubles with 1-4 columns) fed typed keys and batches with repeated keys, reset/trim/compact/copy, delivered in every physical form (update, compact ordered/unordered, moved) to a stateful tuple union, intersection and a-not-b with interleaved reads, plus filter(); per-key fold model over an independent hash; every retained key's summary compared after every step; non-trivial = set-operation delivery, compact or copy; distinct = distinct plan hash"),
     "C14": dict(level="exploration", units=[("addagg", "c14", 16, 2400, 80000)],
                 rule="a run = 3 count-min sketches of one configuration (W in u64/i64/double, 1..255 hashes, 3..1000 buckets, seed) fed integer and string items, merged as a tree, restored, with refused merges; exact counts and a shadow sketch fed the concatenated streams; never-underestimate, bounds, total weight after every step and cell-by-cell linearity after every merge; distinct = distinct plan hash"),
     "C16": dict(level="exploration", units=[("addagg", "c16", 16, 4000, 120000)],
